@@ -206,7 +206,9 @@ def actCalls (ty : Ty) : Act → List Call
   | .recv b _ => (recvSeq ty).map (Call.recv b)
   | .send a _ => (sendSeq ty).map (Call.send a)
 
-def calls (who : Nat → Nat) (ty : Ty) (n r : Nat) : List Call :=
-  [.allgather, .allreduce] ++ (proj who r (events n)).flatMap (actCalls ty) ++ (bcastSeq ty).map (Call.bcast (who 0))
+/-- `bty` = type of the final value as seen by `_bcast` (it differs from the summands' type for zero-dimensional
+    arrays, whose sums are numpy scalars) -/
+def calls (who : Nat → Nat) (ty bty : Ty) (n r : Nat) : List Call :=
+  [.allgather, .allreduce] ++ (proj who r (events n)).flatMap (actCalls ty) ++ (bcastSeq bty).map (Call.bcast (who 0))
 
 end NiftyVerif.Allreduce
